@@ -308,10 +308,10 @@ type outM struct {
 }
 
 type pkgM struct {
-	dirValue  string // value written for `dir` ("" = not written)
-	fileValue string // value written for `filename` at package level ("" = not written)
-	pkgname   string // value written for `pkgname` ("" = not written)
-	target    string // cleaned target directory relative to the root
+	dirValue  string   // value written for `dir` ("" = not written)
+	fileValue string   // value written for `filename` at package level ("" = not written)
+	pkgname   string   // value written for `pkgname` ("" = not written)
+	target    string   // cleaned target directory relative to the root
 	ifaceDirs []string // MixedDir: dir value written at interface level for interface 0 and 1
 	outs      []*outM
 }
